@@ -229,6 +229,13 @@ impl Sys for Sys11 {
             }
         }
         v.push(Ev::Tick(1500));
+        // set_complete (once): the instances published afterwards carry Complete="true"; objects added before it are
+        // still announced before they are sent
+        // (in the core configurations: plain catalogue, default FDT carousel, No-Code session)
+        let core = self.cfg.catalog_kind == 0 && self.cfg.fdt_carousel == 0 && !self.cfg.sess_rs && !self.cfg.sess_real_raptor && !self.cfg.sess_raptor;
+        if core && !self.s.log.iter().any(|i| matches!(i, Item::Api(Ev::SetComplete, _))) {
+            v.push(Ev::SetComplete);
+        }
         // read-only API calls between the others (not twice in a row: the second one cannot differ)
         if !matches!(self.s.log.last(), Some(Item::Api(Ev::Query, _))) {
             v.push(Ev::Query);
